@@ -203,6 +203,7 @@ func (pw *PgWorld) RunSession(clientID string, script []Stmt) *SessionRun {
 		defer pw.recoverActor("database")
 		_ = pw.DB.Serve(dEnd)
 	}()
+	synctest.Wait() // actors are started one at a time: no two goroutines ever run in parallel
 	// proxy
 	logger := log.NewEntry(log.StandardLogger())
 	ctx := logging.SetLoggerToContext(context.Background(), logger)
@@ -241,6 +242,7 @@ func (pw *PgWorld) RunSession(clientID string, script []Stmt) *SessionRun {
 			run.ProxyErrs = append(run.ProxyErrs, e.Error())
 		}
 	}()
+	synctest.Wait()
 	// client
 	go func() {
 		defer func() { cEnd.Close(); done <- struct{}{} }()
